@@ -17,7 +17,7 @@ RULE = ("helpers x parameters: count_set/clear_bits (w 1..9,13,16 x batch 1..7),
         "one_hot, parity, reverse_bits (w 1..9), rol/ror (all n<w), lshift/rshift_fill (Bit and vector fills), repeat, stretch, "
         "leftpad/rightpad/pad (Null/Full/Bit fills), concat (2..4 parts), apply_mask / Mask, batched / select_batch, minimum, "
         "maximum, min/max_element, min/max_index (lists of 1..6 elements, ties), count (value / check), clamp, "
-        "count_elements_while/until, choose_first, select, cond, binary_fold (left/right), batched_fold (batch 2..4), "
+        "(keyed with an idempotent and a non-idempotent key), both bit counters in one design, count_elements_while/until, choose_first, select, cond, binary_fold (left/right), batched_fold (batch 2..4), "
         "BitwiseCrc (3 polynomials x 1..4 bits per step).  All input values when the inputs have <= 10 bits, else 300 samples "
         "incl. corners; plus up to 6 constant-operand instances per case.  distinct_nontrivial = cases compared on >= 8 valuations.")
 ASSUMPTIONS = ["vsim executes the emitted VHDL faithfully", "reference definitions are the mathematical ones named in C18 / the .pyi docs"]
